@@ -68,10 +68,12 @@ def run(tier, seed):
         findings.add(why.split(':')[0], str(case), why)
     from . import c02v
     vres = c02v.run_corr(tier, seed, broken, findings)
+    from . import c02pp
+    pres = c02pp.run_corr(tier, seed, broken, findings)
     P.probe_pinned(findings, ('layout',))
     coverage = {
-        'evaluations': res['n'] * 9 + vres['n'],
-        'distinct_nontrivial': res['n'] + vres['distinct'],
+        'evaluations': res['n'] * 9 + vres['n'] + pres['n'],
+        'distinct_nontrivial': res['n'] + vres['distinct'] + pres['distinct'],
         'rule': 'sheets from the grammar G: @charset, @import (string / url, media queries with features), @namespace '
                 '(prefixed, default), @media incl. nesting with media queries (only / not, and-expressions, expression-first), '
                 '@page (pseudo pages, named) with margin boxes, @font-face, style rules with level-3 selectors (namespaces, '
@@ -81,11 +83,11 @@ def run(tier, seed):
                 'separators , and /, !important.  Per sheet: expected model by construction; 3 layouts (white space and '
                 'comments at every token boundary incl. inside functions, calc, selectors, media queries; no comments; dense) '
                 'x {parseComments}; validate on / off',
-        'traces_validated_against_impl': vres['n'],
+        'traces_validated_against_impl': vres['n'] + pres['n'],
         'exhaustive': False,
-        'distribution': {'sheets': res['n'], 'value-grammar cases': vres['n']},
+        'distribution': {'sheets': res['n'], 'value-grammar cases': vres['n'], 'prodparser / media query cases': pres['distribution']},
         'samples': vres['samples'],
-        'correspondence_mismatches': vres['n_mismatch'],
+        'correspondence_mismatches': vres['n_mismatch'] + pres['n_mismatch'],
         'oracle_failures': res['n_oracle_fail'],
     }
     assumptions = ['comments are compared as rules only (their placement inside selectors, values and media queries is layout)',
